@@ -69,6 +69,15 @@ pub const DANGER: &[&str] = &[
     "---@as C\n",
     "---@export namespace\n",
     "---@readonly\n---@field public private x C\n",
+    // aliases that reach themselves through index-access / field types (survive the index-time alias-cycle collapse)
+    "---@class H\n---@field next A\n---@alias A H[\"next\"]\n",
+    "---@class H\n---@field next A\n---@field [1] A\n---@alias A H[1]\n",
+    "---@alias A { next: A }[\"next\"]\n",
+    "---@class H<T>\n---@field v T\n---@alias A H<A>[\"v\"]\n",
+    "---@alias A B[\"k\"]\n---@alias B { k: A }\n",
+    "---@class H\n---@field next H[\"next\"]\n",
+    "---@alias A table<string, A>[string]\n",
+    "---@alias A [A, A][1]\n",
 ];
 
 pub const USES: &[&str] = &[
@@ -103,6 +112,10 @@ pub const USES: &[&str] = &[
     "local n = x ---@as C\n",
     "goto l\n::l::\n",
     "local e <const>, f <close> = x, nil\n",
+    "---@type string\nlocal s1 = x\n---@type integer[]\nlocal s2 = x\n",
+    "---@param p string\nlocal function tk(p) end\ntk(x)\ntk(x.next)\n",
+    "---@return string\nlocal function rt() return x end\n---@return A\nlocal function ra() return 1 end\n",
+    "---@type H\nlocal h\nlocal hn = h.next.next\n---@type string\nlocal s3 = h.next\n",
     "pcall(x, x)\nxpcall(x, x, x)\nassert(x, x)\nerror(x)\ntostring(x)\nrawget(x, x)\nnext(x)\nunpack(x)\ntable.unpack(x)\ntable.insert(x, x)\n",
 ];
 
